@@ -41,6 +41,11 @@ Partial layers (round 4): each contribution is bound to ITS documented partial-l
            positions with the tolerance their rounding implies, Clouds!FlatRuleOk), the Lee haze selects by layer pressure
            (LeeMask / LeeRuleOk).  MC_Clouds: WindowExtentConserved, FlatIsCoveredFraction; expected counterexample
            FlatRule = "edges" (only the outermost selected layers weighted; a window inside one layer loses a bound).
+Deck writers (round 5): spec/MC_CloudsDeckSet.tla -- the cloud top in force is the LAST value written, by the constructor
+           keyword, the property setter or model['clouds_pressure'], on atmospheres whose bottom lies at 1e6 .. 1e8 Pa
+           (and thin ones reaching above 1e-3 Pa) and for tops from above the grid to two dex below its bottom.  Expected counterexamples: later writes capped at
+           the default bounds of the parameter (invisible on atmospheres of the default depth: _blind.cfg holds) /
+           later writes ignored.  Binding D: TLC-simulated write sequences replayed on ONE real deck in one real model.
 Binding C: spec/Functional.tla walks (harness/history.py) on one long-lived model with a deck / grey haze /
            Lee haze: pressure range, temperature, cloud and haze bounds changed through model[<fitting
            parameter>]; sigma_xsec, transmittance and depth must equal those of a freshly built model.
@@ -420,15 +425,35 @@ def haze_event(world, eid, kind, lev_pos, b, t, pb, pt, par, run_model, mix=Fals
     return e, info, sigma, mag
 
 
-def deck_event(world, eid, cen2, deckpos, pdeck, run_model, mix=False, reuse=None, route='prepare'):
+def write_deck_param(world, c, pdeck):
+    """writer "param": model['clouds_pressure'] = p on the model that holds the deck (what every optimizer does)"""
+    m = world.model
+    world.clear()
+    m.contribution_list = [world.absorption, c]
+    try:
+        m.build()
+        m['clouds_pressure'] = pdeck
+    finally:
+        m.contribution_list = [world.absorption]
+
+
+def deck_event(world, eid, cen2, deckpos, pdeck, run_model, mix=False, reuse=None, route='prepare', writer='setter'):
+    """writer (MC_CloudsDeckSet!Writers): how the cloud top reaches a long-lived object -- "setter" (the property),
+    "param" (the model's fitting parameter), "ctor" (`reuse` has just been constructed with pdeck)"""
     X = world.X
+    info = dict(pdeck=pdeck)
     if reuse is None:
         c = X['SimpleCloudsContribution'](clouds_pressure=pdeck)
     else:
         c = reuse
-        c.cloudsPressure = pdeck
+        try:
+            if writer == 'param':
+                write_deck_param(world, c, pdeck)
+            elif writer == 'setter':
+                c.cloudsPressure = pdeck
+        except Exception as ex:      # a write that raises is an outcome of the code under test
+            info['write_exception'] = repr(ex)[:200]
     world.touched = set()
-    info = dict(pdeck=pdeck)
     if route not in ('prepare', 'model'):
         info['route'] = route
     try:
@@ -814,6 +839,74 @@ def route_vector_events(X, v, pclass, eid, cache):
     return out
 
 
+def deckset_cls(v, use, pclass):
+    lev = v['lev']
+    n = len(lev) - 1
+    cen2 = [lev[k] + lev[k + 1] for k in range(n)]
+    d = v['uses'][use]['deck']
+    dc = 'below-surface' if 2 * d > cen2[0] else ('above-top' if 2 * d <= cen2[-1] else ('on-layer-pressure' if 2 * d in cen2 else 'inside'))
+    return 'deck:%s:%s:written-by=%s:grid=1e%g..1e%g%s' % (pclass, dc, v['uses'][use]['w'], lev[0] / 2.0, lev[-1] / 2.0, '' if use == 0 else ':use%d' % (use + 1))
+
+
+def deckset_vector_events(X, v, pclass, eid, cache, routes=None):
+    """One behaviour of MC_CloudsDeckSet: ONE deck in one model (whose bottom may lie deeper than the default 1e6 Pa); its
+    cloud top written by the constructor, then by the property setter / the model's fitting parameter, one evaluation
+    after every write -> [(event, cls, info, expected opaque mask)]"""
+    world = world_for_grid(X, v['lev'], pclass, cache)
+    lev_pos = v['lev']
+    pos2p = pos2p_factory(world, lev_pos)
+    n = len(lev_pos) - 1
+    cen2 = [lev_pos[k] + lev_pos[k + 1] for k in range(n)]
+    out, obj = [], None
+    for j, u in enumerate(v['uses']):
+        d = u['deck']
+        if obj is None:
+            obj = X['SimpleCloudsContribution'](clouds_pressure=pos2p(d))
+        route = (routes or v.get('routes') or ['model'] * len(v['uses']))[j]
+        e, info = deck_event(world, '%s:u%d' % (eid, j), cen2, d, pos2p(d), route == 'model', reuse=obj, route=route, writer=u['w'])
+        out.append((e, deckset_cls(v, j, pclass) + route_tag(route), info, u['opaque']))
+    return out
+
+
+def run_deckset_vectors(ctx, X, nwalks, pre):
+    """Binding D (MC_CloudsDeckSet): the cloud top written by every public writer, on atmospheres deeper than the default"""
+    res = run_tlc('MC_CloudsDeckSet', 'SIM_CloudsDeckSet.cfg', workers=1, simulate='num=%d' % nwalks, depth=6, seed=ctx.seed + 29)
+    ctx.add_tlc('simulate-deckset', res, counts=False)
+    vecs = res.tagged('DECKSET')
+    if res.violated or len(vecs) < nwalks // 2:
+        raise Machinery('MC_CloudsDeckSet simulation: %d behaviours, violated=%r' % (len(vecs), res.violated))
+    events, meta, post = pre
+    rng = random.Random(ctx.seed * 104729 + 5)
+    cache, count = {}, {}
+    for j, v in enumerate(vecs):
+        n = len(v['lev']) - 1
+        sp = {v['lev'][k] - v['lev'][k + 1] for k in range(n)}
+        pclass = 'simple' if (len(sp) == 1 and j % 2) else 'levels'
+        v = dict(v, routes=[rng.choice(['model', 'model', 'prepare', 'each']) for _ in v['uses']])
+        for u, (e, cls, info, opaque) in enumerate(deckset_vector_events(X, v, pclass, 'D%d:%s' % (j, pclass), cache)):
+            vec = dict(decksetvec=v, pclass=pclass, use=u)
+            meta[e['id']] = (cls, vec, info)
+            events.append(e)
+            # TLC's expected set of opaque layers, compared directly as well (the trace judge re-derives it from deck / cen2)
+            got = [x == 'inf' for x in e['sig']]
+            ctx.verdict('declared_top_in_force', got == list(opaque) and all(x in ('inf', 'zero') for x in e['sig']), cls=cls,
+                        detail='cloud top %g Pa written by %s: opaque layers %r, declared %r %s' %
+                               (info['pdeck'], v['uses'][u]['w'], got, list(opaque), info.get('write_exception', info.get('exception', ''))),
+                        vector=dict(vec, event=dict(id=e['id'])))
+            deep = v['lev'][0] > 12 and v['uses'][u]['deck'] > 12
+            high = v['lev'][-1] < -6 and v['uses'][u]['deck'] < -6
+            key = (v['uses'][u]['w'], 'deeper-than-default' if deep else ('higher-than-1e-3Pa' if high else 'other'))
+            count[key] = count.get(key, 0) + 1
+    for w in ('ctor', 'setter', 'param'):
+        if count.get((w, 'deeper-than-default'), 0) < 1:      # expected ~10 per writer in 40 walks
+            raise Machinery('vacuous: only %d simulated cloud tops deeper than 1e6 Pa written by %s' % (count.get((w, 'deeper-than-default'), 0), w))
+    ctx.traces += len(vecs)
+    ctx.add_sample(dict(deckset_vector=vecs[0]))
+    ctx.note("binding D: %d TLC-generated sequences of three writes of the cloud top (constructor, then setter / fitting parameter) "
+             "on grids with the bottom at 1e6..1e8 Pa (and one family reaching up to 1e-6 Pa): %r" % (len(vecs), {'%s:%s' % k: c for k, c in sorted(count.items())}))
+    return events, meta, post
+
+
 def run_route_vectors(ctx, X, nwalks, pre):
     """Binding A'' (MC_CloudsRoutes): sequences of two uses (route, bounds / deck) of one long-lived contribution object"""
     res = run_tlc('MC_CloudsRoutes', 'SIM_CloudsRoutes.cfg', workers=1, simulate='num=%d' % nwalks, depth=5, seed=ctx.seed + 23)
@@ -1177,7 +1270,10 @@ def history_scenarios(X):
             return dict(sigma=np.asarray(m._verif_c.sigma_xsec), tr=np.asarray(tr), depth=np.asarray(depth))
 
     P_MAX, P_MIN = [1e4, 1e5, 1e6], [1e-2, 1.0, 30.0]
-    return [OneModel('deck:grid', 'deck', ['atm_max_pressure', 'atm_min_pressure', 'clouds_pressure'], [P_MAX, P_MIN, [2e2, 5e3, 2e5]]),
+    # round 5: atmospheres deeper than the default bottom, cloud tops down there and below the bottom (the long-lived model is
+    # written through model[...], the fresh one through the constructors)
+    return [OneModel('deck:deep', 'deck', ['atm_max_pressure', 'clouds_pressure', 'atm_min_pressure'], [[1e6, 1e7, 1e8], [2e5, 4e6, 3e8], P_MIN]),
+            OneModel('deck:grid', 'deck', ['atm_max_pressure', 'atm_min_pressure', 'clouds_pressure'], [P_MAX, P_MIN, [2e2, 5e3, 2e5]]),
             OneModel('deck:T-R', 'deck', ['clouds_pressure', 'T', 'planet_radius'], [[1e-3, 3e3, 1e7], [700.0, 1000.0, 1600.0], [0.8, 1.0, 1.3]]),
             OneModel('flat:grid', 'flat', ['atm_max_pressure', 'flat_topP', 'flat_bottomP'], [P_MAX, [-1, 5.0, 3e3], [-1, 2e4, 50.0]]),
             OneModel('flat:top', 'flat', ['atm_min_pressure', 'flat_topP', 'T'], [P_MIN, [-1, 0.5, 4e2], [700.0, 1000.0, 1600.0]]),
@@ -1231,8 +1327,13 @@ def run(ctx):
           ('routes', 'MC_CloudsRoutes', 'MC_CloudsRoutes_%s.cfg' % ctx.tier, None)]
     bg += [('routes-%s-refuted' % w, 'MC_CloudsRoutes', 'MC_CloudsRoutes_%s.cfg' % w, 'IntegratedOwnRange')
            for w in (['working', 'nothing'][(ctx.seed + 1) % 2:][:1] if q else ['working', 'nothing'])]
+    # round 5: the way the cloud top is written x the depth of the atmosphere
+    bg += [('deckset', 'MC_CloudsDeckSet', 'MC_CloudsDeckSet_%s.cfg' % ctx.tier, None),
+           ('deckset-cap-on-set-refuted', 'MC_CloudsDeckSet', 'MC_CloudsDeckSet_cap_on_set.cfg', 'OpaqueSetIsDeclared')]
     if not q:
         bg.append(('routes-sum-mechanism-blind', 'MC_CloudsRoutes', 'MC_CloudsRoutes_blind.cfg', None))
+        bg.append(('deckset-ctor-only-refuted', 'MC_CloudsDeckSet', 'MC_CloudsDeckSet_ctor_only.cfg', 'OpaqueSetIsDeclared'))
+        bg.append(('deckset-default-depth-blind', 'MC_CloudsDeckSet', 'MC_CloudsDeckSet_blind.cfg', None))
     bg = [(j, pool.submit(run_tlc, j[1], j[2], workers=2, allow_violation=True)) for j in bg]
     try:
         run_rest(ctx, q)
@@ -1277,6 +1378,7 @@ def run_rest(ctx, q):
     ctx.note('binding A: %d exported vectors, %d real runs judged' % (len(vecs), nev))
     pre = run_slab_vectors(ctx, X, 100 if q else 300)
     pre = run_route_vectors(ctx, X, 60 if q else 300, pre)
+    pre = run_deckset_vectors(ctx, X, 40 if q else 240, pre)
     run_random(ctx, X, rng, 24 if q else 400, 30 if q else 60, 40 if q else 100, pre=pre)
     ctx.note('mix events: %(mix_events)d; tangent layers opaque in the line cores AND transparent in the windows with haze present: '
              '%(mixed_layers)d; layers under the tau>10 licence at every wavenumber: %(licensed_layers)d' % STATS)
@@ -1310,7 +1412,16 @@ def replay(ctx, violations):
                     return se
             raise Machinery('replay: slab event %r not produced again' % vec['sub'])
 
-        if vec.get('routevec'):
+        if vec.get('decksetvec'):
+            outs = deckset_vector_events(X, vec['decksetvec'], vec['pclass'], eid, cache)
+            e, cls, info, opaque = outs[vec['use']]
+            if v['clause'] == 'declared_top_in_force':
+                got = [x == 'inf' for x in e['sig']]
+                ctx.verdict(v['clause'], got == list(opaque) and all(x in ('inf', 'zero') for x in e['sig']), cls=v['cls'],
+                            detail='replay: opaque layers %r, declared %r' % (got, list(opaque)), vector=vec)
+                continue
+            e = dict(e, id=eid)
+        elif vec.get('routevec'):
             outs = route_vector_events(X, vec['routevec'], vec['pclass'], eid, cache)
             e, cls, info, adm, sigma, mag, f, inv = outs[vec['use']]
             if v['cls'] != base_cls:
